@@ -369,6 +369,7 @@ def lengths_for(cfg, tier):
 
 def fn_job(job):
     jid, cfg, lens, outdir = job
+    t0 = env.real_time()
     rnd = random.Random(repr((env.SEED, "c12", cfg["name"], cfg["ver"], cfg["block"], jid)))
     g = Gen(cfg, rnd)
     for (n, lv) in lens:
@@ -381,6 +382,7 @@ def fn_job(job):
     st["cfg"] = cfg
     st["weight"] = sum(len(x["vs"]) * (len(x["base"]) + 40) for x in g.groups)
     st["ngroups"] = len(g.groups)
+    st["dur"] = round(env.real_time() - t0, 1)
     st["keys"] = sorted(st["keys"])
     st["sample"] = None
     for x in g.groups:
@@ -569,6 +571,7 @@ def rec_configs(tier):
 
 def rec_job(job):
     jid, cfg, clen, pads, tier, outdir = job
+    t0 = env.real_time()
     suite, ver, etm = cfg["suite"], cfg["ver"], cfg["etm"]
     rnd = random.Random(repr((env.SEED, "c12rec", suite, ver, etm, clen, jid)))
     block, D = SUITES[suite][3], SUITES[suite][5]
@@ -606,7 +609,7 @@ def rec_job(job):
         plan(g, [], "wf" if conforming else "nonconforming-pad", conforming)
         # single-byte corruptions of the plaintext before encryption
         n = len(base)
-        if tier == "thorough" and not slow and (clen in (0, 13) and ver in (0, 1, 3)):
+        if tier == "thorough" and not slow and ((clen == 0 and ver in (0, 1, 3)) or (clen == 13 and ver == 3 and not etm)):
             positions = list(range(1, n + 1))
         else:
             k = 6 if slow else (10 if tier == "quick" else 30)
@@ -621,7 +624,7 @@ def rec_job(job):
             plan(g, [[pos, base[pos - 1] ^ d]], cls, False)
         # every value of the padding-length byte (before encryption)
         if p == pads[0] and (not slow or n <= 32):
-            vals = range(256) if tier == "thorough" else sorted(set(range(0, 2 * block + 2)) | set(range(0, 256, 32)) | {255})
+            vals = range(256) if (tier == "thorough" and clen == 0) else sorted(set(range(0, 2 * block + 2)) | set(range(0, 256, 32)) | {255})
             for v in vals:
                 if v != p:
                     plan(g, [[n, v]], "last", False)
@@ -677,6 +680,7 @@ def rec_job(job):
     stats["cfg"] = cfg
     stats["weight"] = sum(len(x["vs"]) * (len(x["base"]) + 40) for x in groups)
     stats["ngroups"] = len(groups)
+    stats["dur"] = round(env.real_time() - t0, 1)
     stats["keys"] = sorted(stats["keys"])
     stats["sample"] = dict(groups[0], vs=groups[0]["vs"][:2]) if groups else None
     return stats
@@ -699,7 +703,8 @@ def rec_jobs(tier, outdir, jid0):
                 pads = list(range(r, 256, block))       # EVERY admissible padding length
             pads = [p for p in pads if p <= 255]
             # split the TLS pad list over two jobs for balance
-            parts = [pads] if len(pads) <= 8 else [pads[0::2], pads[1::2]]
+            k = 1 if len(pads) <= 8 else (4 if tier == "thorough" and block == 16 else 2)
+            parts = [pads[i::k] for i in range(k)]
             for part in parts:
                 jobs.append((jid0 + len(jobs), cfg, clen, part, tier, outdir))
     return jobs
@@ -826,9 +831,9 @@ def run(tier):
     for cfg in toy_configs(tier) + leaf_configs(tier):
         lens = lengths_for(cfg, tier)
         # cost grows with n: deal lengths round-robin into sub-jobs
-        nsub = {0: 8, 1: 4, 2: 2, 3: 2}[cfg["rank"]]
+        nsub = {0: 16, 1: 6, 2: 3, 3: 3}[cfg["rank"]]
         if tier == "quick":
-            nsub = max(1, nsub // 2)
+            nsub = max(1, nsub // 4)
         for s in range(nsub):
             jobs.append([len(jobs), cfg, lens[s::nsub], outdir])
     rjobs = rec_jobs(tier, outdir, len(jobs))
@@ -841,6 +846,9 @@ def run(tier):
     t1 = env.real_time()
     bad = judge(rep, fstats + rstats, "all")
     rep.notes["wall_impl_s"] = round(t1 - t0, 1)
+    rep.notes["cpu_impl_s"] = round(sum(s["dur"] for s in fstats + rstats), 1)
+    rep.notes["slowest_jobs"] = [[s["dur"], s["n"], json.dumps(s["cfg"])] for s in
+                                 sorted(fstats + rstats, key=lambda s: -s["dur"])[:6]]
     rep.notes["wall_tlc_s"] = round(env.real_time() - t1, 1)
     allst = fstats + rstats
     for st in allst:
